@@ -422,6 +422,46 @@ func c06SelectGen(g *hx.Gen) {
 			}
 		}
 	}
+	// same SNI key, BOTH sites with client authentication on, differing ONLY in the mode: all ordered
+	// pairs of the modes request(1) require(2) verify_if_given(3) require_and_verify(4) (and none), the CA
+	// list identical and in the same order; equal modes must be accepted, different ones rejected
+	for _, hp := range [][2]string{{"a.com", "a.com"}, {"", "0.0.0.0"}, {"*.a.com", "*.a.com"}} {
+		for _, cas := range [][]int{{0}, {0, 1}} {
+			for m1 := 0; m1 <= 4; m1++ {
+				for m2 := 0; m2 <= 4; m2++ {
+					a, b := with(c06Profile(0), hp[0]), with(c06Profile(0), hp[1])
+					a.clientAuth, b.clientAuth = m1, m2
+					a.clientCerts, b.clientCerts = cas, cas
+					emit([]c06Cfg{a, b}, "a.com", "-")
+					emit([]c06Cfg{with(c06Profile(3), "c.org"), a, with(c06Profile(1), "b.a.com"), b}, "x.a.com", "-")
+				}
+			}
+		}
+	}
+	// every field assertConfigsCompatible compares, alone, in both declaration orders: cipher order, curve
+	// order, ALPN order, client-CA order (in addition to the value changes above)
+	{
+		base := with(c06Profile(0), "a.com")
+		base.ciphers = []int{0xc02b, 0xc02f}
+		base.curves = []int{29, 23}
+		base.alpn = []string{"h2", "http/1.1"}
+		base.clientAuth, base.clientCerts = 4, []int{0, 1}
+		swaps := []func(c *c06Cfg){
+			func(c *c06Cfg) { c.ciphers = []int{0xc02f, 0xc02b} },
+			func(c *c06Cfg) { c.curves = []int{23, 29} },
+			func(c *c06Cfg) { c.alpn = []string{"http/1.1", "h2"} },
+			func(c *c06Cfg) { c.clientCerts = []int{1, 0} },
+			func(c *c06Cfg) { c.min = 0x0303 }, // explicit TLS 1.2 = the default: still compatible
+			func(c *c06Cfg) { c.max = 0x0303 },
+			func(c *c06Cfg) { c.min = 0x0302 },
+		}
+		for _, sw := range swaps {
+			v := base
+			sw(&v)
+			emit([]c06Cfg{base, v}, "a.com", "-")
+			emit([]c06Cfg{v, base}, "a.com", "-")
+		}
+	}
 	// local-address preference for an empty server name
 	for _, h := range []string{"127.0.0.1", "::1", "a.com"} {
 		for _, lip := range []string{"127.0.0.1:443", "[::1]:443", "10.0.0.1:443", "garbage", "-"} {
@@ -848,6 +888,20 @@ func c06ConnectGen(g *hx.Gen) {
 						}
 						emit([]c01Site{mk(h1 + ":443"), mk(h2 + ":443")}, []c06Cfg{policies[p1], policies[p2]}, n, "/")
 					}
+				}
+			}
+		}
+	}
+	// one host name split by path (host/admin and host/): the sites share the SNI key, so their client-auth
+	// modes must agree exactly; all ordered mode pairs with the same CA list
+	for m1 := 0; m1 <= 4; m1++ {
+		for m2 := 0; m2 <= 4; m2++ {
+			p1 := c06Cfg{enabled: true, alpn: []string{"h2", "http/1.1"}, clientAuth: m1, clientCerts: []int{0}}
+			p2 := c06Cfg{enabled: true, alpn: []string{"h2", "http/1.1"}, clientAuth: m2, clientCerts: []int{0}}
+			for _, n := range []string{"a.com", "A.com", "zzz"} {
+				for _, pth := range []string{"/", "/admin/x"} {
+					emit([]c01Site{mk("a.com:443/admin"), mk("a.com:443")}, []c06Cfg{p1, p2}, n, pth)
+					emit([]c01Site{mk("a.com:443"), mk("b.com:443"), mk("a.com:443/admin")}, []c06Cfg{p1, policies[0], p2}, n, pth)
 				}
 			}
 		}
